@@ -496,6 +496,11 @@ def run_part(ctx):
                               pcomment=rng.choice([0.1, 0.35, 0.7]))
             cases.append("tt.parse\t%s" % hexs(data)); meta.append((exp, bom, data, "toggled" if vi % 2 else "asis", tailc))
         ctx.count("adj_docs")
+    # the empty document (and white space / comments only), with and without BOM
+    for bom in (False, True):
+        for j in range(7):
+            data = render_adv([], rng, bom=bom, pad=rng.choice([0, 0, 1, 16, 33]) if j else 0, tail_comment=(rng.random() < 0.4 if j > 1 else j == 1), eof_dist=rng.choice([0, 0, 3]) if j > 1 else 0)
+            cases.append("tt.parse\t%s" % hexs(data)); meta.append(("-", bom, data, "empty", False))
     # scalars that end exactly 0..16 bytes before the end of input (the SIMD loop / tail switch), one field each
     for n in STRADDLE + [47, 48, 49]:
         for dist in range(0, 18):
